@@ -154,7 +154,7 @@ def mc_task(logic, n, ftxts, opts=None):
                 for fn_ in fair_names:
                     P = MSet()
                     for i in range(n):
-                        P.put(st[i], True if opts.get('fair_const') else var('%s_%d' % (fn_, i)))
+                        P.put(st[i], True if opts.get('fair_const') else (fixed['%s_%d' % (fn_, i)] if '%s_%d' % (fn_, i) in fixed else var('%s_%d' % (fn_, i))))
                     Fl.append(P)
                 kw['F'] = MList(Fl)
             res = h.ctx.call(mcmod.modelcheck, [h.K, f], kw)
@@ -239,7 +239,7 @@ def mc_task(logic, n, ftxts, opts=None):
             else:
                 dp = oracles.Depths('fixed', inner=depths.max_inner, outer=depths.max_outer)
                 ost = []
-                fair2 = [[True if opts.get('fair_const') else var('%s_%d' % (fn_, i)) for i in range(n)] for fn_ in fair_names] if nfair is not None else None
+                fair2 = [[True if opts.get('fair_const') else (fixed['%s_%d' % (fn_, i)] if '%s_%d' % (fn_, i) in fixed else var('%s_%d' % (fn_, i))) for i in range(n)] for fn_ in fair_names] if nfair is not None else None
                 want = oracles.ctls(f, T2, lab2, n, fair=fair2, depths=dp, stats=ost)
                 if nfair is not None and opts.get('assume_all_fair'):
                     d.assume(b_and(*oracles.fair_states(T2, n, fair2, oracles.Depths('fixed', inner=depths.max_inner, outer=depths.max_outer))))
@@ -325,7 +325,7 @@ def oracle_depths(f, n, aps, fixed, fair_names=None, const=False, pool=None):
     T, lab = matrix(n, fixed=fixed), labels(n, aps, fixed=fixed)
     if pool:
         lab = {pool[a]: v for a, v in lab.items()}
-    fair = [[True if const else var('%s_%d' % (nm, i)) for i in range(n)] for nm in fair_names] if fair_names is not None else None
+    fair = [[True if const else (fixed['%s_%d' % (nm, i)] if '%s_%d' % (nm, i) in fixed else var('%s_%d' % (nm, i))) for i in range(n)] for nm in fair_names] if fair_names is not None else None
     oracles.ctls(f, T, lab, n, fair=fair, depths=dp)
     if not was_on:
         see.tt_off()
@@ -547,8 +547,10 @@ print('no violation on this input')
 def mcf_replay(rec, model):
     from .common import ROOT
     n = rec['n']
+    model = dict(model)
+    model.update(rec.get('fixed') or {})
     R, L = model_to_structure(model, n, ('p', 'q'), rec.get('fixed'))
-    F = [[i for i in range(n) if model.get('f%d_%d' % (k, i))] for k in range(rec.get('nfair', 1))]
+    F = [[i for i in range(n) if model.get('f%d_%d' % (k, i))] for k in range(rec.get('nfair') or 0)]
     path = write_replay('C15', MCF_REPLAY % dict(root=ROOT, logic=rec['logic'], ftxt=rec['formula'], n=n, R=R, L=L, F=F))
     ok, out = run_replay(path)
     return (path if ok else None), out
